@@ -168,6 +168,9 @@ inline std::vector<unsigned char> gen_mutated_file(Chooser& ch, MutLog& log, Tab
   int count = 0;
   if (base <= 7) {
     SpecOpts so; so.max_ndim = 4; so.max_coeffs = 600; so.max_terms = 300; so.ko.extra_max = 4;
+    // now and then a table of many dimensions (5..9, low orders): the evaluation battery on loaded tables then also
+    // meets the dimension limits of the SIMD gradient and the >8-dimension fallback kernels
+    if (gen_version() >= 2 && ch.coin(1, 8)) { so.min_ndim = 5; so.max_ndim = 9; so.max_order = 1; so.max_terms = 512; so.max_coeffs = 2000; so.ko.extra_max = 1; }
     TableSpec s = gen_spec(ch, so);
     if (ch.coin(1, 3)) s.aux.push_back({"AUXKEY", "auxvalue"});
     if (base_spec) *base_spec = s;
